@@ -16,6 +16,9 @@ Filter token `<f>`: `n` (none) | `s<int>` (size=) | `o<int>` (order=).
 History model (`C08.Hist`, several Hypergraph objects, object index `i`):
   `hnew` (one empty object), `hn i x`, `he i <e>`, `hre i <e>`, `hrn i x <0|1 keep_edges>`, `hclr i`, `hcp i`, `hsub i <nodes>`
                                           -> `ok` | `rej` (absent hyperedge / node / object: the code raises)
+  `hpop i src`                            -> `ok` | `rej`: object i takes the content of object src (`populate_from_dict` of a snapshot)
+  `hset i <edges natss> <nodes>`          -> `ok`: object i (a NEW object when i = number of objects) holds the given listing
+                                             (product of a loader / generator / filter; listing taken after a raised call)
   `hshow i`                               -> `<hyperedges sorted>|<nodes sorted>` of object i
   `huse i`                                -> `ok`: the queries above now speak about object i -/
 open Wire C08
@@ -102,6 +105,13 @@ def step (s : St) : List String → St × String
   | ["hsub", i, ns] => match i.toNat?, nats? ns with
     | some i, some ns => hop s (.sub i ns)
     | _, _ => (s, "bad-op")
+  | ["hpop", i, j] => match i.toNat?, j.toNat? with
+    | some i, some j => hop s (.restore i j)
+    | _, _ => (s, "bad-op")
+  | ["hset", i, es, nodes] => match i.toNat?, natss? es, nats? nodes with
+    | some i, some e, some n =>
+      if i = s.hist.length then hop s (.load ⟨n, e.map Hist.sortL⟩) else hop s (.put i ⟨n, e.map Hist.sortL⟩)
+    | _, _, _ => (s, "bad-op")
   | ["hshow", i] => match i.toNat?.bind (fun i => s.hist[i]?) with
     | some c => (s, showNatss (sortLex (c.es.map sortNats)) ++ "|" ++ showNats (sortNats c.nodes))
     | none => (s, "rej")
